@@ -498,19 +498,25 @@ def ob_multimesh():
     return Verdict(DISCHARGED, backend="native run (exact equality)")
 
 
-def ob_saveload():
+def ob_saveload(sim="Elastic"):
     from EasyFEA import Simulations
+    import contextlib, io
     tmp = tempfile.mkdtemp(prefix="vt_c15_")
     try:
-        s = _mk("Elastic")
+        s = _mk(sim)
         s.folder = os.path.join(tmp, "S")
         for k in range(2):
-            _bc(s, "Elastic", k)
+            _bc(s, sim, k)
             s.Solve()
             s.Save_Iter()
         s.mesh.groupElem.Set_Nodes_Tag(np.array([0, 1]), "mytag") if hasattr(s.mesh.groupElem, "Set_Nodes_Tag") else None
-        s.Save(s.folder)
-        t = Simulations.Load_Simu(s.folder)
+        try:
+            with contextlib.redirect_stdout(io.StringIO()):
+                s.Save(s.folder)
+                t = Simulations.Load_Simu(s.folder)
+        except Exception as ex:
+            raise Refuted(f"{sim}: Save / Load_Simu after two solved and saved steps raises {type(ex).__name__}: {str(ex)[:200]}", cex=dict(simulation=sim), signature=f"saveload:{sim}:raises",
+                          replay=dict(confirmed=True, error=str(ex)[:200]))
         if t.Niter != s.Niter:
             raise Refuted(f"loaded simulation has {t.Niter} iterations, saved {s.Niter}", signature="saveload:niter", replay=dict(confirmed=True))
         if not np.array_equal(np.asarray(t.mesh.coord), np.asarray(s.mesh.coord)) or not np.array_equal(np.asarray(t.mesh.connect), np.asarray(s.mesh.connect)):
@@ -522,6 +528,67 @@ def ob_saveload():
         return Verdict(DISCHARGED, backend="native run (pickle round trip)")
     finally:
         shutil.rmtree(tmp, ignore_errors=True)
+
+
+def _save_histories(case):
+    """histories around Save: two meshes in the history (iteration 0 on A, 1 on B), then
+       twice       : Save(F1), Save(F2), Load(F2)
+       folder      : Save(F1), simu.folder = F3, Set_Iter(0) (back to the first mesh), Set_Iter(1)
+       continue    : Save(F1), solve + Save_Iter, Save(F1) again, Load(F1)
+    every stored iteration is restored with its mesh and state, by the live simulation and by the loaded one."""
+    from EasyFEA import Simulations
+    tmp = tempfile.mkdtemp(prefix="vt_c15_")
+    try:
+        s = _mk("Elastic")
+        coords, connect = patches.star_patch("QUAD4", affine=([[1.1, 0.2], [0.1, 0.9]], [0.3, 0.0]))
+        meshB = patches.real_mesh("QUAD4", coords, connect)
+        snaps = []
+
+        def step(load):
+            _bc(s, "Elastic", load)
+            s.Solve()
+            s.Save_Iter()
+            snaps.append(dict(state=_state(s), mesh=np.asarray(s.mesh.coord).copy()))
+        step(0)
+        s.mesh = meshB
+        step(1)
+        F1, F2, F3 = (os.path.join(tmp, f) for f in ("F1", "F2", "F3"))
+        s.Save(F1)
+        sims = [("live", s)]
+        if case == "twice":
+            s.Save(F2)
+            sims.append(("loaded", Simulations.Load_Simu(F2)))
+        elif case == "folder":
+            s.folder = F3
+        elif case == "continue":
+            step(2)
+            s.Save(F1)
+            sims.append(("loaded", Simulations.Load_Simu(F1)))
+        for who, sim in sims:
+            if sim.Niter != len(snaps):
+                return False, f"{who} simulation has {sim.Niter} iterations, {len(snaps)} were saved"
+            for i in list(range(len(snaps))) + [0]:
+                sim.Set_Iter(i)
+                if not np.array_equal(np.asarray(sim.mesh.coord), snaps[i]["mesh"]):
+                    return False, f"{who}: after Set_Iter({i}) the simulation is on another mesh than the one iteration {i} was saved on"
+                ok, why = _same(snaps[i]["state"], _state(sim))
+                if not ok:
+                    return False, f"{who}: after Set_Iter({i}) the state differs ({why})"
+        return True, ""
+    finally:
+        shutil.rmtree(tmp, ignore_errors=True)
+
+
+def ob_save_histories(case):
+    import contextlib, io
+    try:
+        with contextlib.redirect_stdout(io.StringIO()):
+            ok, why = _save_histories(case)
+    except Exception as ex:
+        raise Refuted(f"history '{case}' around Save raises {type(ex).__name__}: {str(ex)[:200]}", cex=dict(history=case), signature=f"save:{case}:raises", replay=dict(confirmed=True, error=str(ex)[:200]))
+    if not ok:
+        raise Refuted(f"history '{case}' around Save: {why}", cex=dict(history=case), signature=f"save:{case}", replay=dict(confirmed=True, detail=why))
+    return Verdict(DISCHARGED, backend="native run (exact equality)")
 
 
 DYNAMIC = {"Elastic": True, "Thermal": True, "Beam": True, "HyperElastic": False, "PhaseField": False, "InElastic": False}
@@ -550,8 +617,12 @@ def build(tier, seed):
     obs.append(Ob("C15.multimesh.enum", ob_multimesh_enum, (Lmm,), "X", (f"{SIMU}::_Simu.mesh[setter]", f"{SIMU}::_Simu.Save_Iter", f"{SIMU}::_Simu.Set_Iter", f"{SIMU}::_Simu.__Update_mesh"),
                   bound=f"every history of length <= {Lmm} over solve+save / assign a new mesh / Set_Iter(k) / Result(iter=k), one Elastic simulation, 9-node meshes",
                   clause="whatever the interleaving of mesh assignments and restores, each stored iteration is restored on the mesh and with the state current when it was saved", timeout=1500))
-    obs.append(Ob("C15.saveload.elastic", ob_saveload, (), "X", (f"{SIMU}::_Simu.Save", f"{SIMU}::Load_Simu"), bound="one Elastic simulation, 2 iterations",
-                  clause="Save / Load_Simu round trip preserves mesh, history length and stored fields", timeout=300))
+    for case in ("twice", "folder", "continue"):
+        obs.append(Ob(f"C15.save.history.{case}", ob_save_histories, (case,), "X", (f"{SIMU}::_Simu.Save", f"{SIMU}::_Simu.__Update_mesh", f"{SIMU}::Load_Simu"), bound="one Elastic simulation, two meshes in the history",
+                      clause="Save into a second folder / a folder change after Save / Save again after more steps: every stored iteration is still restored with its mesh and state, live and loaded", timeout=300))
+    for sim in sims:
+        obs.append(Ob(f"C15.saveload.{sim.lower()}", ob_saveload, (sim,), "X", (f"{SIMU}::_Simu.Save", f"{SIMU}::Load_Simu", f"{SIMS[sim]}::{sim}.Results_Get_Iteration_Summary"), bound=f"one {sim} simulation, 2 iterations",
+                      clause="Save / Load_Simu round trip preserves mesh, history length and stored fields", timeout=300))
     obs.append(Ob("canary.keys.Elastic", ob_keys, ("Elastic", True), "E", expect=REFUTED))
     functions = {"_Simu.Save_Iter": extract.get(SIMU, "_Simu.Save_Iter").describe(), "_Simu.Get_results": extract.get(SIMU, "_Simu.Get_results").describe(),
                  "_Simu.Set_Iter": extract.get(SIMU, "_Simu.Set_Iter").describe()}
